@@ -95,6 +95,16 @@ macro_rules! impl_digest {
                 compressor.finalize_dirty()
             }
         }
+        /// Verification hooks (only with `--cfg cryptocorrosion_verif`): access to the block counter.
+        #[cfg(cryptocorrosion_verif)]
+        impl $groestl {
+            pub fn verif_set_counter(&mut self, blocks: u64) {
+                self.block_counter = blocks;
+            }
+            pub fn verif_counter(&self) -> u64 {
+                self.block_counter
+            }
+        }
         impl Default for $groestl {
             fn default() -> Self {
                 Self::new_truncated($bits::U32 / 2)
@@ -196,5 +206,24 @@ impl digest::FixedOutputDirty for Groestl384 {
 impl digest::Reset for Groestl384 {
     fn reset(&mut self) {
         *self = Groestl384::default();
+    }
+}
+
+#[cfg(cryptocorrosion_verif)]
+impl Groestl224 {
+    pub fn verif_set_counter(&mut self, blocks: u64) {
+        self.0.verif_set_counter(blocks)
+    }
+    pub fn verif_counter(&self) -> u64 {
+        self.0.verif_counter()
+    }
+}
+#[cfg(cryptocorrosion_verif)]
+impl Groestl384 {
+    pub fn verif_set_counter(&mut self, blocks: u64) {
+        self.0.verif_set_counter(blocks)
+    }
+    pub fn verif_counter(&self) -> u64 {
+        self.0.verif_counter()
     }
 }
